@@ -56,7 +56,6 @@ Definition interleave_frame (chans : list (list Z)) : list Z :=
        else map (hd 0%Z) cs ++ go k (map (@tl Z) cs) end) (match chans with c :: _ => length c | [] => O end) chans.
 
 Section Stream.
-  Variable p : profile.
 
   (* one Decoder::read_frame step: None = end of stream *)
   Definition read_frame (si : streaminfo) (current : N) (bytes : list N)
@@ -65,14 +64,15 @@ Section Stream.
       (* unknown total: an EOF before the first header byte is the end of the stream (repo fix a9b7cf4) *)
       match bytes with
       | [] => Ok None
-      | _ => '(h, chans, rest) <- dec_frame p (Some si) (fun _ => Ok tt) bytes ;;
+      | _ => '(h, chans, rest) <- dec_frame (Some si) (fun _ => Ok tt) bytes ;;
              Ok (Some (chans, current + h_bs h, rest))
       end
     else
-      (* total.get() - current_sample : u64 subtraction *)
-      remaining <- arith_u p 64 (Z.of_N (si_total si) - Z.of_N current) ;;
+      (* total.get().checked_sub(current_sample).ok_or(TooManySamples)   (repo fix 1ddf45d) *)
+      if si_total si <? current then Err ETooManySamples else
+      let remaining := (Z.of_N (si_total si) - Z.of_N current)%Z in
       if (remaining =? 0)%Z then Ok None else
-      '(h, chans, rest) <- dec_frame p (Some si)
+      '(h, chans, rest) <- dec_frame (Some si)
           (fun h => if (Z.of_N (h_bs h) =? remaining)%Z || (14 <? h_bs h) then Ok tt else Err EShortBlock) bytes ;;
       Ok (Some (chans, current + h_bs h, rest)).
 
@@ -103,7 +103,7 @@ Section Stream.
     | O => (rev acc, EndPanic PFuel)
     | S f => match bytes with
              | [] => (rev acc, EndErr EEof)
-             | _ => match dec_frame p None (fun _ => Ok tt) bytes with
+             | _ => match dec_frame None (fun _ => Ok tt) bytes with
                     | Ok (h, chans, rest) => dec_subset_frames f rest ((h, interleave_frame chans) :: acc)
                     | Err e => (rev acc, EndErr e)
                     | Panic k => (rev acc, EndPanic k)
